@@ -186,6 +186,9 @@ def diagram(rng, circles, allow_quotes=False, allow_braces=False, small=False):
             rows = diag('\\', n, '\\') + [' ' * n + rng.choice('vV')]
         kind = 'arrow'
     rows = [r.rstrip() for r in rows]
+    if rows and rng.random() < 0.02:
+        # the document starts with a byte order mark (files saved by some editors): a character like any other
+        rows = ['\ufeff' + rows[0]] + list(rows[1:])
     if not ordinary_cells(rows):
         # at least one ordinary cell: an empty drawing has no position
         rows = ['+']
